@@ -19,6 +19,7 @@ class SimFS:
         self.dirty = {}            # path -> full content written in this life (volatile)
         self.ro_mutations = []     # attempted writes / creates / truncates under the read-only root
         self.log = []              # (op, path)
+        self.unreadable = set()    # paths whose open() fails with EACCES / EIO (permissions changed, bad sector)
 
     # ------------------------------------------------------------------ seams
     def open(self, path, mode='r', *a, **k):
@@ -33,6 +34,8 @@ class SimFS:
             return _WFile(self, path)
         if path not in self.files:
             raise FileNotFoundError(2, 'No such file or directory', path)
+        if path in self.unreadable:
+            raise PermissionError(13, 'Permission denied', path)
         return io.StringIO(self.files[path].decode('latin1'))
 
     def glob(self, pattern):
